@@ -164,15 +164,19 @@ theorem get_hit {s : State} {k : Key} {o : ObjId} {ok : Bool} (hk : k ≠ "")
 
 /-! ### cache keys -/
 
+theorem ofList_inj {a b : List Char} (h : String.ofList a = String.ofList b) : a = b := by
+  have := congrArg String.toList h
+  simpa using this
+
 theorem dstKey_ne_idKey (a b : Nat) : Resumption.dstKey a ≠ Resumption.idKey b := by
   intro h
-  have := congrArg String.toList h
-  simp [Resumption.dstKey, Resumption.idKey] at this
+  have := ofList_inj h
+  simp at this
 
 theorem dstKey_ne_junkKey (a b : Nat) : Resumption.dstKey a ≠ Resumption.junkKey b := by
   intro h
-  have := congrArg String.toList h
-  simp [Resumption.dstKey, Resumption.junkKey] at this
+  have := ofList_inj h
+  simp at this
 
 theorem dstKey_ne_empty (a : Nat) : Resumption.dstKey a ≠ "" := by
   intro h
@@ -183,5 +187,17 @@ theorem idKey_ne_empty (a : Nat) : Resumption.idKey a ≠ "" := by
   intro h
   have := congrArg String.toList h
   simp [Resumption.idKey] at this
+
+theorem idKey_inj {a b : Nat} (h : Resumption.idKey a = Resumption.idKey b) : a = b := by
+  have := ofList_inj h
+  simp only [List.cons.injEq, true_and] at this
+  have := congrArg List.length this
+  simpa using this
+
+theorem dstKey_inj {a b : Nat} (h : Resumption.dstKey a = Resumption.dstKey b) : a = b := by
+  have := ofList_inj h
+  simp only [List.cons.injEq, true_and] at this
+  have := congrArg List.length this
+  simpa using this
 
 end Gotlcp.Lemmas.Resumption
